@@ -71,7 +71,7 @@ def check(run):
                         "facts / proofs with an Ed25519 key and 6 combinations each with 3 more Ed25519, 2 RSA and a did:web-wrapped key, 1..3 capabilities, 7 caveat shapes "
                         "(empty, link, negative int + unicode, nested maps in non-canonical insertion order, lists, bytes + max int, string map), inline and link-only proofs, chains of "
                         "depth 1..3; 12 receipts (ok / error, forks as link and embedded invocation, join, metadata, proofs, bare and embedded ran; Ed25519, RSA, wrapped); "
-                        "5 agent messages (empty, 1 / 3 invocations sharing proofs, receipts only, both); 7 keys (key string, DID, DID bytes, signature of a fixed message). "
+                        "5 agent messages (empty, 1 / 3 invocations sharing proofs, receipts only, both); 7 keys (key string, DID, DID bytes, signature of a fixed message); 17 DID strings (web, mailto, dns, dht, ion, indy, iota, plc, pkh, ethr, one-letter and nested methods, Ed25519 and RSA did:key) parsed, encoded and printed, 3 tokens between such principals. "
                         "Each program is re-executed and compared byte for byte; each recorded artefact is parsed / extracted / verified by the current tree; each recorded block and "
                         "CAR is reproduced by the Coq encoders. distinct = programs" % (stats["programs"], stats["corpus_sha256"][:16]),
                    samples=stats["samples"], by_kind=stats["by_kind"], model_cases=stats["model_cases"])
